@@ -449,7 +449,8 @@ func c14RetryRules(c *Ctx) error {
 						conds = append(conds, c.Src(x.Cond))
 					}
 				case *ast.AssignStmt:
-					if len(x.Lhs) == 1 && strings.HasSuffix(c.Src(x.Lhs[0]), ".Fees") {
+					// every write to a field of the action before it is re-enqueued (Fees = nil is the expected one)
+					if _, isSel := x.Lhs[0].(*ast.SelectorExpr); len(x.Lhs) == 1 && isSel && x.Tok == token.ASSIGN {
 						clears = append(clears, c.Src(x))
 					}
 				case *ast.IncDecStmt:
